@@ -80,7 +80,11 @@ def random_behaviours(rng, n, focus, maxlen=36):
                 slots += 1
                 e = rng.choice([-1000, 0, 1, 999, mn - 1, mn, mn + 1, mn + 999, mn + 1000, mx - 1, mx, mx + 1, mx + 5000, 86400000, 800000000, 1900000000])
                 c = rng.choice(foreign)
-                lines.append("mk m=%d c=%d b=%d e=%d%s" % (slots, c, rng.randrange(8), e, rng.choice(["", "", "", " thr=0", " drop=1"])))
+                eabs = ""
+                if rng.random() < 0.12:      # absolute expiries at the ends of what the codec carries (centuries away either way)
+                    eabs = " eabs=%d" % rng.choice([-9223372036, -9223372035, -9000000000, -8000000000, -7523372037, -7523372036, -7000000000, -2208988800, -1, 0, 1,
+                                                     9223372036, 9223372035, 9000000000])
+                lines.append("mk m=%d c=%d b=%d e=%d%s%s" % (slots, c, rng.randrange(8), e, eabs, rng.choice(["", "", "", " thr=0", " drop=1"])))
                 marks.append(now + e)
                 for _ in range(rng.randint(1, 3)):
                     y = rng.random()
